@@ -470,6 +470,7 @@ class Samples(SamplesInterface, ABC):
         copied = copy(self)
         copied._paths = None
         copied._names = None
+        copied._instance = None
         copied.model = model
 
         copied.sample_list = [sample.subsample(path_map) for sample in self.sample_list]
